@@ -12,6 +12,7 @@ mod c13;
 mod c14;
 mod c15;
 mod c16;
+mod c19;
 
 fn main() {
     verifkit::quiet_panics();
@@ -25,6 +26,7 @@ fn main() {
         "C14" => c14::run(&ctx),
         "C15" => c15::run(&ctx),
         "C16" => c16::run(&ctx),
+        "C19" => c19::run(&ctx),
         p => {
             eprintln!("rtprops: unknown property {p}");
             2
